@@ -21,3 +21,23 @@ fn items_in_order_then_a_single_none_then_removed() {
     assert_eq!(v.len(), 501, "something was delivered after the end of the stream");
     assert!(t0.elapsed() >= Duration::from_millis(50), "an ended stream keeps the loop spinning");
 }
+
+#[test]
+fn a_burst_larger_than_any_batch_is_delivered_completely_without_further_wakeups() {
+    // everything is queued and the producer is gone BEFORE the first dispatch: no later wake-up will come
+    for n in [1u32, 1023, 1024, 1025, 5000] {
+        let mut el: EventLoop<Vec<Option<u32>>> = EventLoop::try_new().unwrap();
+        let (tx, rx) = mpsc::unbounded::<u32>();
+        el.handle().insert_source(StreamSource::new(rx).unwrap(), |it, _, v: &mut Vec<Option<u32>>| v.push(it)).unwrap();
+        for i in 0..n { tx.unbounded_send(i).unwrap(); }
+        drop(tx);
+        let mut v = vec![];
+        let t = Instant::now();
+        while v.last() != Some(&None) {
+            el.dispatch(Duration::from_millis(50), &mut v).unwrap();
+            assert!(t.elapsed() < Duration::from_secs(5), "burst of {}: stranded after {} deliveries", n, v.len());
+        }
+        let expect: Vec<Option<u32>> = (0..n).map(Some).chain(std::iter::once(None)).collect();
+        assert_eq!(v, expect, "burst of {}", n);
+    }
+}
